@@ -922,6 +922,14 @@ def run_boxhelpers(shard, ctx, focus=None):
         if o2 is not None and list(map(bool, np.asarray(o2).tolist())) != [exp_o, not exp_o, exp_o]:
             rep.bad("is_orthogonal|value|stacked_%s" % kind, "is_orthogonal on stacked boxes is wrong", fc,
                     [exp_o, not exp_o, exp_o], np.asarray(o2).tolist())
+    if name.startswith("skew:"):
+        # the documented tolerance: 'orthogonal when the dot product is within 1e-6'
+        sk = float(name.split(":")[1])
+        ctx.ev(1, 1)
+        o = call(rep, "is_orthogonal", fc, struc.is_orthogonal, b32)
+        if o is not None and bool(o) != (sk < 1e-6):
+            rep.bad("is_orthogonal|value|documented_tolerance", "is_orthogonal disagrees with its documented tolerance of 1e-6",
+                    fc, sk < 1e-6, bool(o), {"a.b": sk})
     # --- repeat_box_coord / repeat_box
     small = P[[0, 77, 1033, 4000 % len(P), len(P) - 1]]
     for amount in (1, 2):
@@ -1627,6 +1635,8 @@ def run_order(shard, ctx, focus=None):
     import biotite.structure as struc
 
     rep = Reporter(ctx, shard)
+    if focus is not None and not ("combo" in focus or "dtype" in focus):
+        focus = None
     bases = shape_bases()
     funcs = {nm: getattr(struc, nm) for nm in NARGS}
     boxes = [None, np.diag([5.0, 5.0, 5.0]), box_of("t2")]
@@ -1635,7 +1645,7 @@ def run_order(shard, ctx, focus=None):
         for combo in itertools.product(SH_FORMS, repeat=k):
             for bi, box in enumerate(boxes):
                 fc = {"f": fname, "combo": list(combo), "bi": bi, "cls": "%s_%s" % ("box" if bi else "plain", "_".join(combo))}
-                if focus is not None and any(focus.get(x) != fc[x] for x in ("f", "combo", "bi")):
+                if focus is not None and ("combo" not in focus or any(focus.get(x) != fc[x] for x in ("f", "combo", "bi"))):
                     continue
                 ctx.journal(json.dumps({"s": shard, "f": fc}))
                 args, true = [], []
@@ -1683,7 +1693,7 @@ def run_order(shard, ctx, focus=None):
                 continue
             for dt in INDEX_DTYPES:
                 fc = {"f": "index_" + fname, "dtype": dt, "obj": oname, "cls": "index_%s" % dt}
-                if focus is not None and any(focus.get(x) != fc[x] for x in ("f", "dtype", "obj")):
+                if focus is not None and ("dtype" not in focus or any(focus.get(x) != fc[x] for x in ("f", "dtype", "obj"))):
                     continue
                 if dt in ("int64", "int32", "int16", "uint8", "uint64"):
                     ia = idx.astype(dt)
@@ -1750,11 +1760,14 @@ def audit_calls():
     # compact geometry (all inside a cube of side 0.5: every minimum image is unique in all boxes used here); Q is
     # additionally moved by lattice vectors of the box t2, which only the single-box calls use
     box = f32(box_of("t2"))
-    P = f32(1.0 + 0.25 * (P27[[0, 5, 13, 22, 26, 9, 17]].astype(float) + 1) / 2.0)
-    Q0 = 1.0 + 0.25 * (P27[[3, 8, 14, 20, 1, 25, 11]].astype(float) + 1) / 2.0
+    # generic positions (fractional parts of multiples of sqrt 2, 3, 5): no collinear / degenerate tuples
+    kk = np.arange(1, 36, dtype=float)[:, None]
+    gen = 1.0 + 0.5 * np.modf(kk * np.sqrt(np.array([2.0, 3.0, 5.0])))[0]
+    P = f32(gen[:7])
+    Q0 = gen[7:14]
     Q = f32(Q0 + np.array([[1, 0, -2], [0, 0, 0], [-1, 2, 1], [2, -2, 0], [0, 1, 0], [-2, 0, 1], [1, 1, 1]], dtype=float)
             @ box.astype(float))
-    S = f32(np.stack([P, Q0, P[::-1] + 0.125]))
+    S = f32(gen[14:35].reshape(3, 7, 3))
     boxes = f32(np.stack([box_of("t2"), box_of("o_3_3_3"), box_of("upper")]))
     idx2 = np.array([[0, 1], [2, 6], [5, 5]])
     idx3 = np.array([[0, 1, 2], [6, 3, 1]])
@@ -1818,6 +1831,8 @@ def run_alias(shard, ctx, focus=None):
     import biotite.structure as struc
 
     rep = Reporter(ctx, shard)
+    if focus is not None and "call" not in focus:
+        focus = None
     for name, fn, args, kw in audit_calls():
         fc = {"call": name, "cls": name}
         if focus is not None and focus.get("call") != name:
@@ -1902,6 +1917,8 @@ def run_flavour(shard, ctx, focus=None):
     """every array argument of every anchored function in other flavours (float64, Fortran order, strided view,
     read-only, integer where the values are integral, list): same result as for the float32 C array"""
     rep = Reporter(ctx, shard)
+    if focus is not None and "slot" not in focus:
+        focus = None
     for name, fn, args, kw in audit_calls():
         ref = call(rep, name, {"cls": name}, fn, *args, **kw)
         if ref is None:
@@ -1938,7 +1955,7 @@ def run_flavour(shard, ctx, focus=None):
                     got = call(rep, name, fc, fn, *a2, **k2)
                     if got is None:
                         continue
-                tol = 2e-4 if fl == "f64" else 1e-6
+                tol = 1e-3 if (is_box or fl == "f64") else 1e-6     # float64 input changes the arithmetic of the box helpers
                 if not _same(ref, got, tol):
                     rep.bad("%s|depends_on_array_flavour|%s" % (name, fl),
                             "the same values in another array flavour give another result", fc)
@@ -1951,6 +1968,8 @@ def run_edge(shard, ctx, focus=None):
     import biotite.structure as struc
 
     rep = Reporter(ctx, shard)
+    if focus is not None and "case" not in focus:
+        focus = None
     box = f32(box_of("t2"))
     e3 = np.zeros((0, 3), dtype=np.float32)
     one = f32([[1.0, 2.0, 3.0]])
@@ -1964,8 +1983,8 @@ def run_edge(shard, ctx, focus=None):
         ("repeat_box_coord_amount0", lambda: struc.repeat_box_coord(one, box, 0)[0], (1, 3)),
         ("repeat_box_coord_empty", lambda: struc.repeat_box_coord(e3, box)[0], (0, 3)),
         ("remove_pbc_from_coord_one", lambda: struc.remove_pbc_from_coord(one + 9, box), (1, 3)),
-        ("displacement_one_model_stack", lambda: struc.displacement(one[None], one[None] + 1, box=box[None]), (1, 1, 3)),
-        ("distance_single_vs_single", lambda: np.asarray(struc.distance(one[0], one[0] + 1, box=box)), ()),
+        ("displacement_one_model_stack", lambda: struc.displacement(one[None], one[None] + 0.25, box=box[None]), (1, 1, 3)),
+        ("distance_single_vs_single", lambda: np.asarray(struc.distance(one[0], one[0] + 0.25, box=box)), ()),
         ("centroid_one", lambda: struc.centroid(one), (3,)),
         ("translate_empty", lambda: struc.translate(e3, [1, 2, 3]), (0, 3)),
         ("rotate_centered_one_atom", lambda: struc.rotate_centered(one, [1, 2, 3]), (1, 3)),
@@ -1976,19 +1995,35 @@ def run_edge(shard, ctx, focus=None):
             continue
         ctx.journal(json.dumps({"s": shard, "f": fc}))
         ctx.ev(1, 1)
-        ctx.count("unspecified")
-        try:
-            with np.errstate(all="ignore"):
-                r = fn()
-        except Exception:  # noqa: BLE001
-            ctx.count("unspecified_refused")      # statement silent on empty input: a clean exception is fine
-            continue
+        empty = "empty" in nm or "no_rows" in nm
+        if empty:
+            ctx.count("unspecified")
+            try:
+                with np.errstate(all="ignore"):
+                    r = fn()
+            except Exception:  # noqa: BLE001
+                ctx.count("unspecified_refused")      # statement silent on empty input: a clean exception is fine
+                continue
+        else:                                         # one atom / one model / amount 0 are ordinary inputs
+            ctx.count("accepted")
+            r = call(rep, nm, fc, fn)
+            if r is None:
+                continue
         if np.shape(r) != shape:
             rep.bad("%s|bad_shape|empty_or_singleton" % nm, "wrong result shape for an empty / singleton input", fc,
                     list(shape), list(np.shape(r)))
             continue
         if nm == "rotate_centered_one_atom" and not np.allclose(r, one, atol=1e-5):
             rep.bad("rotate_centered|value|one_atom", "a single atom rotated about its own centroid moved", fc)
+        if nm == "displacement_one_model_stack" and not np.allclose(r, 0.25, atol=1e-5):
+            rep.bad("displacement|value|one_model_stack", "displacement of a one-model stack with a (1,3,3) box is wrong", fc,
+                    [0.25, 0.25, 0.25], np.asarray(r).ravel().tolist())
+        if nm == "distance_single_vs_single" and not np.allclose(r, 0.25 * 3 ** 0.5, atol=1e-5):
+            rep.bad("distance|value|single_atoms_box", "distance between two single positions with a box is wrong", fc)
+        if nm == "centroid_one" and not np.allclose(r, one[0], atol=1e-6):
+            rep.bad("centroid|value|one_atom", "centroid of one atom is not the atom", fc)
+        if nm == "repeat_box_coord_amount0" and not np.array_equal(r, one):
+            rep.bad("repeat_box_coord|value|amount0", "amount=0 must return the original coordinates only", fc)
         if nm == "remove_pbc_from_coord_one":
             res, _ = geom.lattice_residual(np.asarray(r, dtype=float) - (one + 9), box.astype(float))
             if (res > 1e-3).any():
